@@ -308,7 +308,7 @@ struct Driver {
     ev_n: usize,
     idle_n: usize,
     end_n: usize,
-    done_points: std::collections::HashSet<String>,
+    cursors: std::collections::HashMap<String, usize>,
     last_seen_wakes: usize,
     need_poll: bool,
     ended: bool,
@@ -492,23 +492,34 @@ impl Driver {
         true
     }
 
+    /// The next stimulus scripted for this blocking point, one per stall: the machine is polled between two
+    /// stimuli of the same point, as it would be between two events of its environment.
     fn stimuli_at(&mut self, p: &str, n: usize) -> Option<Vec<Value>> {
         let key = format!("{}#{}", p, n);
-        if self.done_points.contains(&key) {
-            return None;
-        }
-        let mut out = vec![];
+        let mut all = vec![];
         for s in &self.stims {
             if s["at"]["p"] == p && s["at"]["n"].as_u64() == Some(n as u64) {
-                out.extend(s["do"].as_array().cloned().unwrap_or_default());
+                all.extend(s["do"].as_array().cloned().unwrap_or_default());
             }
         }
-        if out.is_empty() {
-            None
+        let cursor = self.cursors.entry(key).or_insert(0);
+        if *cursor < all.len() {
+            *cursor += 1;
+            Some(vec![all[*cursor - 1].clone()])
         } else {
-            self.done_points.insert(key);
-            Some(out)
+            None
         }
+    }
+
+    fn has_remaining(&self, p: &str, n: usize) -> bool {
+        let key = format!("{}#{}", p, n);
+        let total: usize = self
+            .stims
+            .iter()
+            .filter(|s| s["at"]["p"] == p && s["at"]["n"].as_u64() == Some(n as u64))
+            .map(|s| s["do"].as_array().map(|a| a.len()).unwrap_or(0))
+            .sum();
+        self.cursors.get(&key).cloned().unwrap_or(0) < total && n > 0
     }
 
     fn run(&mut self) {
@@ -581,7 +592,9 @@ impl Driver {
             self.poll_ctl();
             if self.stream.is_none() {
                 // machine gone (dropstream / ended): only stimuli can follow
-                self.idle_n += 1;
+                if !self.has_remaining("idle", self.idle_n) {
+                    self.idle_n += 1;
+                }
                 let n = self.idle_n;
                 match self.stimuli_at("idle", n) {
                     Some(sts) => {
@@ -629,7 +642,10 @@ impl Driver {
                     }
                 }
                 None => {
-                    self.idle_n += 1;
+                    // an idle point keeps its number while stimuli scripted for it remain
+                    if !self.has_remaining("idle", self.idle_n) {
+                        self.idle_n += 1;
+                    }
                     let n = self.idle_n;
                     if let Some(sts) = self.stimuli_at("idle", n) {
                         for st in sts {
@@ -701,7 +717,7 @@ pub fn run_scenario(sc: &Value) -> Vec<String> {
         ev_n: 0,
         idle_n: 0,
         end_n: 0,
-        done_points: Default::default(),
+        cursors: Default::default(),
         last_seen_wakes: 0,
         need_poll: true,
         ended: false,
